@@ -67,6 +67,7 @@ type Loc struct {
 }
 
 type Frame struct {
+	cellVars     map[string]TV // named variables that live in heap cells (escaping / captured)
 	fieldFnOwner map[ssa.Value]ssa.Value // call value (load of x.f) -> x, for function-valued fields under contract
 	fn       *ssa.Function
 	vals     map[ssa.Value]TV
@@ -965,6 +966,14 @@ func (v *FV) loopHeader(fr *Frame, li *loopInfo, st *State) *State {
 			break
 		}
 		tv := v.freshVal(fr, phi, ns)
+		if tv.Sort == "Slice" {
+			// whatever slice the variable holds at the loop head, its backing array already exists
+			v.regArray("TOP", "(Array Int Int)")
+			v.assume(ns.reach, fmt.Sprintf("(< (sl_arr %s) %s)", tv.T, v.topOf(ns.snap)))
+		} else if tv.Sort == "Int" && v.isRefType(phi.Type()) {
+			v.regArray("TOP", "(Array Int Int)")
+			v.assume(ns.reach, fmt.Sprintf("(< %s %s)", tv.T, v.topOf(ns.snap)))
+		}
 		if phi.Comment != "" {
 			ns.env[phi.Comment] = tv
 			delete(ns.addr, phi.Comment)
@@ -1131,6 +1140,11 @@ func (v *FV) execInstr(fr *Frame, st *State, instr ssa.Instruction) {
 				if in.IsAddr {
 					st.addr[id.Name] = v.val(fr, in.X)
 					delete(st.env, id.Name)
+				} else if cell, isCell := fr.cellVars[id.Name]; isCell {
+					// a variable that lives in a heap cell (captured by a closure): contracts read
+					// its current value through the cell
+					st.addr[id.Name] = cell
+					delete(st.env, id.Name)
 				} else {
 					st.env[id.Name] = v.val(fr, in.X)
 					delete(st.addr, id.Name)
@@ -1145,6 +1159,13 @@ func (v *FV) execInstr(fr *Frame, st *State, instr ssa.Instruction) {
 		if _, ok := elem.Underlying().(*types.Struct); ok {
 			v.storeStruct(st.snap, elem, ref, v.zero(elem))
 		} else {
+			if in.Heap && in.Comment != "" && in.Comment != "complit" && in.Comment != "slicelit" && in.Comment != "varargs" {
+				if fr.cellVars == nil {
+					fr.cellVars = map[string]TV{}
+				}
+				fr.cellVars[in.Comment] = fr.vals[in]
+				st.addr[in.Comment] = fr.vals[in]
+			}
 			l := &Loc{kind: 2, arr: v.cellArray(elem), ref: ref, ty: elem}
 			v.store(st, l, v.zero(elem))
 			if cellIsPrivate(in) || cellIsFinal(in) {
